@@ -177,6 +177,11 @@ func c04Generate(id int, seed uint64, region string, steps int) *c04hist {
 		fmt.Sscanf(region, "boundary:%d", &k)
 		return c04Boundary(id, seed, k)
 	}
+	if strings.HasPrefix(region, "escape:") {
+		var k int
+		fmt.Sscanf(region, "escape:%d", &k)
+		return c04Escape(id, seed, k)
+	}
 	r := newRng(seed)
 	g := c04NewGen(r, region)
 	g.sugarOK = region == "" && r.chance(30)
@@ -518,15 +523,17 @@ func runC04(args []string) error {
 			return err
 		}
 	}
-	nsl, nap := 0, 0
+	nsl, nap, nesc := 0, 0, 0
 	for k := range sm.Distribution {
 		if strings.HasPrefix(k, "cell:slice:") {
 			nsl++
 		} else if strings.HasPrefix(k, "cell:append:") {
 			nap++
+		} else if strings.HasPrefix(k, "cell:escape:") {
+			nesc++
 		}
 	}
-	sm.Notes = append(sm.Notes, fmt.Sprintf("boundary stream: %d slicing cells (operand x lo x hi x max) and %d append cells (kind x destination) hit, each followed by writes through every possibly aliasing slice and an append", nsl, nap))
+	sm.Notes = append(sm.Notes, fmt.Sprintf("boundary stream: %d slicing cells (operand x lo x hi x max) and %d append cells (kind x destination) hit, each followed by writes through every possibly aliasing slice and an append; escape stream: %d cells (argument shape x escaping callee, call site executed 3 times in one activation)", nsl, nap, nesc))
 	if len(sm.Samples) == 0 && len(hs) > 0 {
 		sm.Samples = append(sm.Samples, sm.CaseIndex[fmt.Sprint(hs[0].ID)])
 	}
@@ -612,6 +619,10 @@ func c04Plan(tier string, seed uint64) (ids []int, seeds []uint64, regions []str
 	// the boundary stream: every cell of the slicing and append cross products, in every run
 	for k := range c04BoundarySpecs() {
 		mk(fmt.Sprintf("boundary:%d", k), 1)
+	}
+	// the escape stream: argument shape x escaping callee x repeated call site, in every run
+	for k := range c04EscapeKinds {
+		mk(fmt.Sprintf("escape:%d", k), 2)
 	}
 	return
 }
